@@ -130,6 +130,8 @@ namespace FV.Driver
 def opWC (args obs : List String) : Option DecOut :=
   match args with
   | [scen, ns, ls, peer, _] =>
+    -- severtmo: the transport failure is an expired read deadline; a failure like any other
+    let peer := if peer == "severtmo" then "sever" else peer
     let n := ns.toNat?.getD 0
     let listen := ls == "t"
     let all := " ".intercalate obs
